@@ -85,11 +85,11 @@ Definition check (c : case) : bool :=
       (length x =? n)%nat && forallb (fun r => (length r =? n)%nat) raws &&
       close_fn_s (qabs_max (qs x ++ concat (map qs raws)))
                  (chain n (lq (qs x)) (map (fun r => lq (qs r)) raws)) n out
-  | KFirPlan Fs lb ub order n o => plan_ok (fir_plan (f2q Fs) (f2q lb) (option_map f2q ub) order n) o
+  | KFirPlan Fs lb ub order n o => plan_ok (fir_plan_fl Fs lb ub order n) o
   | KTaps hp ntaps fw b =>
       (length fw =? ntaps)%nat &&
       close_fn (stage_taps ntaps (if hp then HP 0 else LP 0) (lq (qs fw))) ntaps b
-  | KIir Fs lb ub o => iir_ok (iir_spec (f2q Fs) (f2q lb) (option_map f2q ub)) o
+  | KIir Fs lb ub o => iir_ok (iir_spec_fl Fs lb ub) o
   | KAxis m i o => option_eqb axis_eqb (out_axis m i) o
   | KBoxcar n Fs lb ub iters x out err =>
       if boxcar_defined iters then
